@@ -25,7 +25,7 @@ EXHAUSTIVE_SUBDOMAINS = []
 ASSUMPTIONS = ["pulse samples carry the amplitude plus a small share of the noise; low samples carry noise only", "regime R2 (noise between 0.2 x and 0.316 x the weakest pulse, i.e. 10-13.5 dB SNR) was the recorded finding eof-threshold-below-noise until fix b07124f; it is now judged as strictly as R1",
                "R1 = noise peak below the demodulator's own end-of-frame threshold (0.2 x strongest pulse of the frame)"]
 REQUIRED = ["r1_buffers", "r2_buffers", "second_buffer", "second_buffer_short_tail", "min_gap_after_short", "min_gap_after_long", "df17", "df20", "df21", "df4", "df5", "df11", "offset_even", "offset_odd",
-            "corrupted_df17_rejected", "pure_noise", "multi_frame", "same_frame_twice_in_a_row", "second_reader_alive", "reader_in_debug_mode", "sessions", "session_buffer_11_or_later", "big_busy_first_buffer", "buffer_longer_than_nominal_size"]
+            "corrupted_df17_rejected", "weakest_pulse_exactly_10dB_above_floor", "pure_noise", "multi_frame", "same_frame_twice_in_a_row", "second_reader_alive", "reader_in_debug_mode", "sessions", "session_buffer_11_or_later", "big_busy_first_buffer", "buffer_longer_than_nominal_size"]
 
 
 def reader():
@@ -80,7 +80,7 @@ def build(rng, case):
             samples[j_], samples[j_ + 1] = (A * 0.93, A) if hi_first else (A, A * 0.93)
         for s in samples:
             nz = noise_sample(rng, fam, L, P)
-            buf.append(s + (0.3 * nz if s > 0 else 0.0) if s > 0 else nz)
+            buf.append((s if case.get("pure") else s + 0.3 * nz) if s > 0 else nz)
         frames_info.append({"start": start, "n": n, "amp": A, "hex": fr["hex"], "valid": fr.get("valid", True) and not fr.get("weak")})
         if fr.get("valid", True) and not fr.get("weak"):
             exp.append(fr["hex"].upper())
@@ -155,6 +155,8 @@ def m_buffer(ctx, case):
     if regime == "noise":
         ctx.nontrivial(("b", case["bseed"], "noise"))
         return
+    if case.get("pure") and exp:
+        ctx.hit("weakest_pulse_exactly_10dB_above_floor")
     if got != exp:
         missing = [e for e in exp if e not in got]
         extra = [g for g in got if g not in exp]
@@ -289,6 +291,11 @@ def mkcase(rng, regime, nframes=None, force_df=None):
     elif regime == "R2":
         fam = "const"
         P = L = rng.uniform(0.21, 0.31) * amin   # 10..13.5 dB below the weakest pulse
+        exact = rng.random() < 0.3
+        if exact:
+            # the weakest pulses sit EXACTLY 10 dB (a factor sqrt(10) in amplitude) above a constant floor - the inclusive edge
+            # of the property; the reader's gate is 3.162 x its floor estimate, 9e-5 (relative) below sqrt(10)
+            P = L = amin / 10 ** 0.5
     else:
         P = rng.uniform(0.01, 0.3)
         L = P if fam == "const" else P / 2
@@ -317,6 +324,8 @@ def mkcase(rng, regime, nframes=None, force_df=None):
             frames.append(dict(fr_, amp=rng.choice((amps[k], rng.uniform(amin, 1.4))), gap=rng.choice((own, own + 2, 240, 400, rng.randint(own, 700)))))
     c = {"fam": fam, "L": L, "P": P, "lead": rng.choice((200, 201, 333, 400, rng.randint(200, 700))), "tail": 600 + rng.randrange(0, 300),
          "frames": frames, "regime": regime, "bseed": rng.getrandbits(40)}
+    if regime == "R2" and exact:
+        c["pure"] = True     # pulse samples carry the amplitude alone (no share of the noise on top)
     if frames and rng.random() < 0.25:
         k = rng.randint(1, len(frames))
         c["second"] = [dict(f) for f in frames[:k]]
